@@ -146,6 +146,10 @@ class Interp:
                     return self.fresh_num(st, 0, 1, hint)
                 return TOP
             return self.fresh_num(st, r[0], r[1], hint)
+        if k == "adt" and getattr(self, "net_records", False) and t.get("path") in ("std::net::Ipv4Addr", "std::net::Ipv6Addr", "std::net::IpAddr",
+                                                                                    "std::net::SocketAddrV4", "std::net::SocketAddrV6", "std::net::SocketAddr"):
+            from absint.models_net import top_net
+            return top_net(self, st, t["path"], hint)
         if k == "adt" and t.get("path") in self.opaque:
             return Term("in", hint or self.fresh("o"))
         if depth > 5:
@@ -1960,7 +1964,7 @@ class Interp:
             return False
         return True
 
-    def call_local(self, st, fr, bb, key, args, term, frame_tag=None, part=0):
+    def call_local(self, st, fr, bb, key, args, term, frame_tag=None, part=0, unpacked=False):
         callee = self.prog.bodies[key]
         ph = self.pre_hooks.get(key) or self.pre_hooks.get(callee.defp)
         if ph is not None:
@@ -1977,6 +1981,9 @@ class Interp:
         argv = list(args)
         if callee.kind == "closure" and len(argv) == 2 and n != 2 and isinstance(argv[1], Struct) and argv[1].tag is None:
             argv = [argv[0]] + [argv[1].get(i) for i in range(n - 1)]
+        elif not unpacked and callee.kind == "closure" and len(argv) == 2 and n == 2 and isinstance(argv[1], Struct) and argv[1].tag is None and set(argv[1].f) == {0} \
+                and callee.local_ty(2).get("k") != "tuple":
+            argv = [argv[0], argv[1].get(0)]       # a one-parameter closure called directly: the 1-tuple is spread as well
         for i in range(n):
             st.cells[self.cell_of(nf, i + 1)] = argv[i] if i < len(argv) else TOP
         res = self.run_body(nf, st)
@@ -2238,7 +2245,7 @@ class CallCtx:
                     env = Ref(cell)
             else:
                 env = c
-            return self.it.call_local(st, self.fr, self.bb, c.tag, [env] + list(argv), self.term, frame_tag="cl%s" % tag, part=self.part)
+            return self.it.call_local(st, self.fr, self.bb, c.tag, [env] + list(argv), self.term, frame_tag="cl%s" % tag, part=self.part, unpacked=True)
         if isinstance(c, FnV) and c.key in self.it.prog.bodies:
             return self.it.call_local(st, self.fr, self.bb, c.key, list(argv), self.term, frame_tag="fn%s" % tag, part=self.part)
         return None
